@@ -359,6 +359,18 @@ def check_options(case, ctx):
     if key in derivs and specs:
         _check_clauses(ctx, "C12/cls", derivs[key], specs, vals[key], spot, eps)
     ctx.check(torch.equal(ul.spot, buf0), "C12/cls/mutates", "payoff computation modified the spot buffer")
+    # the same derivative objects on new paths (a second simulation: time-reversed paths, one path fewer): "for every simulated path"
+    spot2 = [list(reversed(p)) for p in (spot[1:] if N > 1 else spot)]
+    ul.register_buffer("spot", torch.tensor(spot2, dtype=DTYPES[dtype]))
+    for (name, c), d in derivs.items():
+        label = "C12/" + OPTION_CLS[name]
+        with ctx.sut(label):
+            raw2 = d.payoff_fn()
+        got2 = _values(ctx, label, raw2, len(spot2))
+        if got2 is None:
+            continue
+        want2 = [O.EXACT[name](p, c, strike) for p in spot2]
+        _cmp_exact(ctx, label + "/value", got2, want2, eps, f"{OPTION_CLS[name]}(call={c}).payoff_fn() on the second set of paths of the same object")
     nt = _path_classes(ctx, spot, strike)
     ctx.nontrivial(nt or len(specs) >= 2)
     _clause_classes(ctx, specs)
